@@ -38,7 +38,7 @@ META = {
         "R1 exhaustiveness: every token type that the markdown-it rule modules and the plugin modules imported by parsers/mdit.py can emit "
         "(state.push / Token(...) / .type = ..., folded X_open/X_close -> X as SyntaxTreeNode does) has a render_<type> method that the renderer's "
         "`rules` table admits, or is consumed inside another handler / removed by a core rule / never registered by MyST (each table entry re-verified "
-        "against the sources on every run; the table handler is followed through its helper methods); the two dispatch loops hand every child exactly "
+        "against the sources on every run; the table, definition-list and field-list handlers are followed through their helper methods); the two dispatch loops hand every child exactly "
         "once, in order, to the handler selected by its own type or warn (helper methods, hoisted keys and .get idioms are followed). "
         "R2 nesting, by path counting on the CFG of every render method and of the helpers it reaches (self.m(), getattr(self, TABLE[k])(), Class.m(), module functions): "
         "(a) each docutils node that is constructed and bound to a name is attached exactly once on every normal path (helper attachment is a computed summary; `return n` hands an unattached node to the caller, "
@@ -53,7 +53,7 @@ META = {
         "R3 content: the text of text, inline code, code block, fence, math and raw HTML leaves is exactly token.content (def-use chain, extracted helpers followed); the code highlighter "
         "feeds the lexer the text it was given and appends every fragment once; refuri/refname/uri/reftarget derive from token.attrGet('href'/'src') (backward slice through locals, "
         "parameters and helpers); an inventory link's refuri is computed from the inventory match (assumed, recognised by role: result of get_inventory_matches or an InvMatch parameter); a destination that receives only one part of a split href must have the remainder stored on the same node (download_reference excepted); image alt is "
-        "the text of the image token's children, agrees per token type with markdown-it's reference renderInlineAsText and visits nested inline nodes in source order (recursion or an "
+        "the text of the image token's children, agrees per token type with markdown-it's reference renderInlineAsText (content / recursion / constant; any other contribution, e.g. an attribute that markdown-it only fills at HTML render time, is a disagreement) and visits nested inline nodes in source order (recursion or an "
         "order-preserving work list); the ordered-list start reaches the node for every legal start including 0 (decision table of the guards and the stored value), copy_attributes never "
         "tests the truthiness of a value it copies; the code language derives from token.info and is its first whitespace-delimited word (cut with str.split on any whitespace, as markdown-it's fence renderer does, not at one separator character); "
         "a forward flow analysis of the percent-encoding state (attrGet/normalizeLink = encoded, normalizeLinkText = decoded) shows that no refuri/uri receives a decoded value on any path (an id_link refuri is a local target name, C09); "
@@ -391,8 +391,25 @@ def _consumed_elsewhere(corpus: Corpus, tt: TokenTypes, t: str) -> tuple[str, st
     def handler(n):
         return base.func(R + n)
 
+    def renders_via_helpers(f0: FunctionInfo) -> bool:
+        an0 = _nesting(corpus, corpus.cls(RENDERER))
+        seen: set[str] = set()
+        work = [f0]
+        while work:
+            f1 = work.pop()
+            if f1.fq in seen or f1.is_lambda:
+                continue
+            seen.add(f1.fq)
+            for c in f1.local_nodes():
+                if isinstance(c, ast.Call):
+                    if _is_self_call(c, "render_children"):
+                        return True
+                    if _is_self_call(c) or isinstance(c.func, ast.Call):
+                        work.extend(m for m in an0.call_targets_safe(c, f1) if m.cls is not None)
+        return False
+
     def by_literal(f: FunctionInfo, why: str):
-        renders = any(isinstance(c, ast.Call) and _is_self_call(c, "render_children") for c in f.local_nodes())
+        renders = renders_via_helpers(f)
         if _compares_type_with(f, t) and renders:
             return OK, why
         if not _mentions_literal(f, t):
@@ -2300,7 +2317,21 @@ def _alt_contributions(fi: FunctionInfo) -> tuple[dict[str, tuple], tuple]:
                 elif isinstance(v, ast.Call) and isinstance(v.func, ast.Attribute) and v.func.attr == fi.name and v.args and f"{var}.children" in unparse(v.args[0]):
                     c = ("recurse",)
                 else:
-                    raise Unsupported(f"{fi.fq}: contribution `{short(v, 40)}` not understood")
+                    # unwrap str(x) / cast(str, x) / (x or "") and look again; anything else is its own kind
+                    w = v
+                    while True:
+                        if isinstance(w, ast.Call) and dotted(w.func) == "str" and len(w.args) == 1:
+                            w = w.args[0]
+                        elif isinstance(w, ast.Call) and dotted(w.func) == "cast" and len(w.args) == 2:
+                            w = w.args[1]
+                        elif isinstance(w, ast.BoolOp) and isinstance(w.op, ast.Or) and len(w.values) == 2 and isinstance(w.values[1], ast.Constant) and w.values[1].value == "":
+                            w = w.values[0]
+                        else:
+                            break
+                    if isinstance(w, ast.Attribute) and w.attr == "content" and unparse(w.value) == var:
+                        c = ("content",)
+                    else:
+                        c = ("other", f"`{short(v, 40)}`")
             elif isinstance(st, (ast.Pass,)) or (isinstance(st, ast.Expr) and isinstance(st.value, ast.Constant)):
                 continue
             else:
@@ -2365,7 +2396,7 @@ def _alt_text_agreement(corpus: Corpus, rep: Report, tt: TokenTypes) -> None:
         if got == want:
             rep.ok("C02.R3", k, mine.site(), f"{want[0]}{'=' + repr(want[1]) if len(want) > 1 else ''} as in markdown-it")
         else:
-            show = lambda c: {"none": "nothing", "content": "its content", "recurse": "the text of its children"}.get(c[0], repr(c[1]) if len(c) > 1 else c[0])  # noqa: E731
+            show = lambda c: {"none": "nothing", "content": "its content", "recurse": "the text of its children"}.get(c[0], (c[1] if c[0] == "other" else repr(c[1])) if len(c) > 1 else c[0])  # noqa: E731
             rep.violation("C02.R3", k, mine.site(), f"a `{t}` token inside an image description contributes {show(got)} to `alt`, markdown-it's renderInlineAsText (which this method ports) contributes {show(want)}: the alt text is not carried over unchanged")
 
 
@@ -2845,9 +2876,16 @@ def _html_all_or_nothing(corpus: Corpus, rep: Report, an: "Nesting") -> None:
     therefore range over all children of the parse result - a filtered subset silently drops what was filtered out."""
     f = corpus.func("mdit_to_docutils.html_to_nodes:html_to_nodes")
     rep.saw_function(f.fq)
-    roots = [n for n in f.local_nodes() if isinstance(n, ast.Assign) and len(n.targets) == 1 and isinstance(n.targets[0], ast.Name) and any(isinstance(c, ast.Call) and (dotted(c.func) or "").endswith("tokenize_html") for c in ast.walk(n.value))]
+    # the parse result: the local that is computed from the text (tokenize_html(text), <tokenizer>.feed(text) ...) inside the
+    # guarded parse step and that the conversion ranges over
+    text_param = f.params[0]
+    roots = []
+    for n in f.local_nodes():
+        if isinstance(n, ast.Assign) and len(n.targets) == 1 and isinstance(n.targets[0], ast.Name) and isinstance(n.value, ast.Call) and any(isinstance(a, ast.Try) for a in ancestors(n)):
+            if any(isinstance(c, ast.Call) and any(isinstance(x, ast.Name) and x.id == text_param for x in c.args) for c in ast.walk(n.value)):
+                roots.append(n)
     if len(roots) != 1:
-        raise Unsupported("html_to_nodes: the parse result of tokenize_html is not bound once")
+        raise Unsupported(f"html_to_nodes: expected one guarded `<root> = <parse>(text)` step, found {len(roots)}")
     root = roots[0].targets[0].id
 
     def complete(it: ast.expr, depth: int = 0) -> str | None:
@@ -4127,6 +4165,28 @@ def mutants(corpus: Corpus):
     f = base.func(R + "render_link_url")
     first = find_node(f, lambda n: isinstance(n, ast.Assign) and unparse(n.targets[0]) == "uri" and "attrGet" in unparse(n.value))
     add("c02-refuri-decoded-for-every-url-link", "C02.R3", base, first.value if first else None, "self.md.normalizeLinkText(" + (_seg(base, first.value) if first else "") + ")", "decoded unconditionally")
+    # revert of b2de0bc: the decoded copy is written back to the variable that is stored as refuri
+    f = base.func(R + "render_link_url")
+    dec = find_node(f, lambda n: isinstance(n, ast.Assign) and isinstance(n.value, ast.Call) and (dotted(n.value.func) or "").endswith("normalizeLinkText") and isinstance(n.targets[0], ast.Name))
+    if dec is not None and first is not None and dec.targets[0].id != first.targets[0].id:
+        fseg = _seg(base, f.node)
+        import re as _re
+        out.append(Mutant("c02-revert-decoded-uri-fix", "C02.R3", base.rel, splice(base.src, f.node, _re.sub(rf"\b{dec.targets[0].id}\b", first.targets[0].id, fseg)), expect="stored percent-decoded"))
+    else:
+        out.append(("c02-revert-decoded-uri-fix", "separate decoded local not found in render_link_url"))
+    # class: a nested image contributes an attribute that is only filled at HTML render time
+    f = base.func(R + "renderInlineAsText")
+    els = find_node(f, lambda n: isinstance(n, ast.AugAssign) and "renderInlineAsText" in unparse(n.value))
+    if els is not None and isinstance(parent(els), ast.If):
+        ind = indent_of(f, parent(els))
+        # insert `elif <image>: result += <alt attribute>` before the final else
+        src_lines = base.src.splitlines(keepends=True)
+        else_line = els.lineno - 2  # the `else:` line precedes the statement
+        while else_line >= 0 and src_lines[else_line].strip() != "else:":
+            else_line -= 1
+        if else_line >= 0:
+            new_src = "".join(src_lines[:else_line] + [f'{ind}elif token.type == "image":\n', f'{ind}    result += str(token.attrGet("alt") or "")\n'] + src_lines[else_line:])
+            out.append(Mutant("c02-alt-nested-image-from-alt-attribute", "C02.R3", base.rel, new_src, expect="`image` tokens"))
     f = base.func(R + "render_image")
     st = find_node(f, lambda n: isinstance(n, ast.Assign) and unparse(n.targets[0]) == "img_node['uri']")
     add("c02-image-uri-decoded", "C02.R3", base, st.value if st else None, "self.md.normalizeLinkText(destination)", "uri stored percent-decoded")
